@@ -1,6 +1,7 @@
 from __future__ import annotations
 
 import configparser
+import importlib
 import io
 import os.path
 import re
@@ -11,6 +12,15 @@ import typing
 import zipfile
 
 from pygopherd.handlers.base import BaseHandler, VFS_Real
+
+# shelve picks and imports its dbm back end when the first shelf is opened.
+# By then the server may be confined to a chroot jail with nothing to import
+# from, so import whatever back ends this Python has right away.
+for _backend in ("dbm", "dbm.gnu", "dbm.ndbm", "dbm.dumb"):
+    try:
+        importlib.import_module(_backend)
+    except ImportError:
+        pass
 
 CacheData = typing.Dict[str, typing.Any]
 
